@@ -314,21 +314,25 @@ def _cys_residue():
     raise RuntimeError("no suitable CYS tripeptide in the repository files")
 
 
-def two_cys_at_exactly_2p5(rng):
+def two_cys_at_exactly_2p5(rng, vec=None, target=None):
     """Records of two X-CYS-Y tripeptides (chains A and B) whose sulfurs are exactly 2.5 A apart, both on
-    multiples of 0.125 A (exact floating-point arithmetic: the rule's strict inequality says no bridge)."""
+    multiples of 0.125 A (exact floating-point arithmetic: the rule's strict inequality says no bridge).
+    With vec / target (milli-Angstrom): sulfur 1 at target, sulfur 2 at target + vec."""
     from .. import pdbio
     res = _cys_residue()
     sg = [a for a in res if a.aname() == "SG"][0]
     n0 = min(a.resnum for a in res)
-    target = [125 * rng.randrange(-4000, 4000) for _ in range(3)]
+    target = list(target) if target is not None else [125 * rng.randrange(-4000, 4000) for _ in range(3)]
     r1 = pdbio.move(res, pdbio.IDENTITY, (target[0] - sg.x, target[1] - sg.y, target[2] - sg.z))
     rot = rng.choice([r for r in pdbio.ROTATIONS if r != pdbio.IDENTITY])
     r2 = pdbio.move(res, rot, (0, 0, 0))
     sg2 = [a for a in r2 if a.aname() == "SG"][0]
-    v = list(rng.choice(TIE_VECTORS["S-S"]))
-    rng.shuffle(v)
-    v = [c * rng.choice((1, -1)) for c in v]
+    if vec is not None:
+        v = list(vec)
+    else:
+        v = list(rng.choice(TIE_VECTORS["S-S"]))
+        rng.shuffle(v)
+        v = [c * rng.choice((1, -1)) for c in v]
     r2 = pdbio.move(r2, pdbio.IDENTITY, (target[0] + v[0] - sg2.x, target[1] + v[1] - sg2.y, target[2] + v[2] - sg2.z))
     for a in r1:
         a.chain, a.resnum, a.icode = "A", 10 + a.resnum - n0, " "
